@@ -238,7 +238,10 @@ func genFanin(rng *rand.Rand, k, maxJ, maxN int) RunSpec {
 // context they were enqueued with, some with a live one), then N jobs that must all be in flight
 // at once.  ContinueOnError, so that the scheduler keeps going after the Goexits.
 func genCapacity(rng *rand.Rand, k int) RunSpec {
-	n := 1 + rng.Intn(4)
+	return genCapacityN(rng, k, 1+rng.Intn(4))
+}
+
+func genCapacityN(rng *rand.Rand, k int, n int) RunSpec {
 	pre := rng.Intn(2*n + 2)
 	// two more probe jobs than workers: exactly n of them must be in flight together, never more
 	J := pre + n + 2
@@ -819,6 +822,7 @@ func main() {
 	in := flag.String("in", "", "input file (replay: RunSpec ndjson; script: TLC behaviours)")
 	nostamp := flag.Bool("nostamp", false, "no stamps, no hooks: plain bodies (for the race detector)")
 	nohooks := flag.Bool("nohooks", false, "do not install the hook collector")
+	defaultN := flag.Bool("defaultn", false, "capacity mode: leave Concurrency unset (the default limit max(GOMAXPROCS, 4) is probed)")
 	deadline := flag.Duration("deadline", 5*time.Second, "per-run watchdog deadline")
 	flag.Parse()
 	_ = atomic.AddInt64(&stampCounter, 0)
@@ -853,7 +857,13 @@ func main() {
 	case "capacity":
 		rng := rand.New(rand.NewSource(*seed))
 		for k := 1; k <= *runs; k++ {
-			specs = append(specs, genCapacity(rng, k))
+			rs := genCapacity(rng, k)
+			if *defaultN {
+				// as many probe jobs as the default limit allows, plus two
+				rs = genCapacityN(rng, k, effN(0))
+				rs.N = 0
+			}
+			specs = append(specs, rs)
 		}
 	case "prompt":
 		rng := rand.New(rand.NewSource(*seed))
